@@ -65,6 +65,8 @@ type Exec struct {
 	frameOn        bool
 	heapTop0       *Term
 	inputs         map[string]*Term
+	dynHints       map[*Term]types.Type // interface term -> dynamic type a requires clause demands (typeIs), for replay
+	dynOf          map[string]types.Type // input key -> that dynamic type
 	curProps       []string
 	sentinels      map[string]*Term
 	strLits        map[string]*Term
@@ -105,7 +107,7 @@ func NewExec(P *Program) *Exec {
 	p := NewPool()
 	ex := &Exec{P: P, p: p, tm: NewTypeMap(p), regionSorts: map[string]*Sort{}, epochMerges: map[int]*epochMerge{},
 		ptrIDs: map[string]*Term{}, ptrByID: map[*Term]*PtrV{}, condClosures: map[*Term][]condClosure{}, oblCount: map[string]int{},
-		assumptions: map[string]bool{}, boxes: map[*Term]boxInfo{}, shiftCache: map[string]*Term{}, specDecls: map[string]*FuncDecl{}, bitCache: map[int][]*Term{}, bitLinked: map[int]bool{}, bitTerm: map[int]*Term{}, shiftAxiomDone: map[string]bool{}, constBacking: map[*Term]*Term{}, constGlobVals: map[string]*Term{}, localCellRefs: map[*Term]string{}, boundOf: map[int][2]*big.Int{}, expandMemo: map[string]*Term{}, symMemo: map[int]map[string]bool{}, sliceOrigin: map[*Term]*PtrV{}, typeIDs: map[string]int{}, inputs: map[string]*Term{}, sentinels: map[string]*Term{}, strLits: map[string]*Term{},
+		assumptions: map[string]bool{}, boxes: map[*Term]boxInfo{}, shiftCache: map[string]*Term{}, specDecls: map[string]*FuncDecl{}, bitCache: map[int][]*Term{}, bitLinked: map[int]bool{}, bitTerm: map[int]*Term{}, shiftAxiomDone: map[string]bool{}, constBacking: map[*Term]*Term{}, constGlobVals: map[string]*Term{}, localCellRefs: map[*Term]string{}, boundOf: map[int][2]*big.Int{}, expandMemo: map[string]*Term{}, symMemo: map[int]map[string]bool{}, sliceOrigin: map[*Term]*PtrV{}, typeIDs: map[string]int{}, inputs: map[string]*Term{}, dynHints: map[*Term]types.Type{}, dynOf: map[string]types.Type{}, sentinels: map[string]*Term{}, strLits: map[string]*Term{},
 		allocOrder: map[*Term]int{}, bounded: map[*Term]bool{}, wholeCopy: map[*Term]wholeCopy{}}
 	p.DistinctFn = ex.distinct
 	ex.tm.Bounds = ex.bounds
@@ -742,7 +744,23 @@ func (ex *Exec) execBlock(fr *frame, b *ssa.BasicBlock, st *State) []edge {
 func (ex *Exec) runDefers(fr *frame, st *State) {
 	for i := len(st.defers) - 1; i >= 0; i-- {
 		d := st.defers[i]
-		ex.doCall(fr, st, d.call, d.fnv, d.args, nil, token.NoPos)
+		if d.guard == nil {
+			ex.doCall(fr, st, d.call, d.fnv, d.args, nil, token.NoPos)
+			continue
+		}
+		// conditional defer: run the call where its guard holds, leave the state alone elsewhere, and merge
+		rest := st.defers
+		yes, no := st.fork(), st.fork()
+		yes.pc = ex.p.And(st.pc, d.guard)
+		no.pc = ex.p.And(st.pc, ex.p.Not(d.guard))
+		yes.defers, no.defers = nil, nil
+		ex.doCall(fr, yes, d.call, d.fnv, d.args, nil, token.NoPos)
+		m, err := ex.merge([]*State{yes, no})
+		if err != nil {
+			ex.fail("conditional defer: %v", err)
+		}
+		*st = *m
+		st.defers = rest
 	}
 	st.defers = nil
 }
@@ -881,7 +899,7 @@ func (ex *Exec) execInstr(fr *frame, st *State, in ssa.Instruction) {
 		} else {
 			fnv = ex.val(st, in.Call.Value)
 		}
-		st.defers = append(st.defers, deferred{&in.Call, args, fnv})
+		st.defers = append(st.defers, deferred{&in.Call, args, fnv, nil})
 	case *ssa.Go:
 		ex.assumptions["go statement at "+pos+" not modelled (spawned goroutine ignored)"] = true
 		ex.siteAsserts(fr, st, &in.Call, in, "go", pos)
